@@ -308,6 +308,27 @@ pub fn run(a: &Args) {
 					// replay of the key exchange reply shape / result injection
 					("forged-result".into(), json!({"jsonrpc":"2.0","id":1,"result":{"Ok": "0202020202020202020202020202020202020202020202020202020202020202ff"}}).to_string().into_bytes())
 				}
+				16 | 17 => {
+					// a plaintext batch that contains the (allowed) key-exchange call next to other calls:
+					// the key exchange being allowed in plaintext must not open the door for its neighbours
+					let pk = {
+						let secp = static_secp_instance();
+						let secp = secp.lock();
+						let sk = loop {
+							if let Ok(k) = SecretKey::from_slice(&secp, &rng.bytes(32)) {
+								break k;
+							}
+						};
+						hex(&PublicKey::from_secret_key(&secp, &sk).unwrap().serialize_vec(&secp, true))
+					};
+					let init = json!({"jsonrpc":"2.0","method":"init_secure_api","params":{"ecdh_pubkey": pk},"id":7});
+					let arr = match rng.below(3) {
+						0 => json!([init, inner]),
+						1 => json!([inner, init]),
+						_ => json!([init, inner, {"jsonrpc":"2.0","method":"accounts","params":{"token":null},"id":9}]),
+					};
+					("batch-array-with-key-exchange".into(), arr.to_string().into_bytes())
+				}
 				_ => ("plaintext-call".into(), inner.to_string().into_bytes()),
 			};
 			// "plaintext-method-with-valid-ciphertext" is authentic ciphertext: the statement only forbids
